@@ -11,6 +11,7 @@ import (
 	"sort"
 	"strings"
 	"sync"
+	"time"
 
 	"github.com/gin-gonic/gin"
 
@@ -230,7 +231,21 @@ func main() {
 				s.split[st.r] = r.Chance(1, 3)
 			}
 		}
+		s.ctxAware = r.Chance(2, 3)
 		scs = append(scs, s)
+		return s
+	}
+	ms := func(n int) time.Duration { return time.Duration(n) * time.Millisecond }
+	// small server timeouts; write is only ever set large next to gated requests (a small write
+	// timeout legitimately cuts any answer written later than that, shutdown or not)
+	type tcfg struct{ idle, read, write, readHeader time.Duration }
+	timeoutCfgs := []tcfg{
+		{idle: ms(30)}, {idle: ms(80)}, {read: ms(60)}, {readHeader: ms(60)}, {write: 2 * time.Minute},
+		{idle: ms(40), read: ms(70)}, {idle: ms(50), readHeader: ms(50)}, {read: ms(80), readHeader: ms(40)},
+		{idle: ms(40), read: ms(60), readHeader: ms(50)}, {idle: ms(30), read: ms(80), write: 2 * time.Minute, readHeader: ms(60)},
+	}
+	withCfg := func(s *scenario, c tcfg) *scenario {
+		s.idle, s.read, s.write, s.readHeader = c.idle, c.read, c.write, c.readHeader
 		return s
 	}
 	L := func(i int) step { return step{"launch", i} }
@@ -278,6 +293,29 @@ func main() {
 		add(fl, true, false, []step{C, {"start", 0}, {"await", 0}}, "corpus")
 	}
 
+	// ---- corpus: handlers that follow their request context; small server timeouts ----
+	for _, fl := range flavors {
+		for _, keep := range []bool{false, true} {
+			// the request context of an in-flight request must survive the cancellation of the runner's
+			add(fl, false, keep, finish([]step{L(0), C, P, R(0)}), "corpus_ctx").ctxAware = true
+			add(fl, false, keep, finish([]step{L(0), L(1), R(1), C, U, R(0)}), "corpus_ctx").ctxAware = true
+			for ci, c := range timeoutCfgs {
+				// in flight at the cancellation, released well after every small timeout has passed
+				withCfg(add(fl, false, keep, finish([]step{L(0), C, P, R(0)}), "timeouts"), c)
+				if ci%2 == 0 {
+					withCfg(add(fl, false, keep, finish([]step{L(0), L(1), R(0), C, P, U, R(1)}), "timeouts"), c)
+				} else {
+					withCfg(add(fl, false, keep, finish([]step{L(0), R(0), L(1), C, P, {"late", 41}, R(1)}), "timeouts"), c)
+				}
+			}
+		}
+		// a small write timeout alone: only where no answer is gated
+		withCfg(add(fl, false, false, finish([]step{C}), "timeouts"), tcfg{write: ms(40)})
+		withCfg(add(fl, true, false, []step{{"start", 0}, {"await", 0}}, "timeouts"), tcfg{idle: ms(30), read: ms(40), write: ms(40), readHeader: ms(30)})
+		withCfg(add(fl, true, false, []step{{"start", 0}, {"await", 0}}, "timeouts"), tcfg{idle: ms(30)})
+		withCfg(add(fl, false, false, []step{C, {"start", 0}, {"await", 0}, {"late", 80}}, "timeouts"), tcfg{idle: ms(30), read: ms(40), readHeader: ms(30)})
+	}
+
 	// ---- exhaustive small scope ----
 	maxN := map[string]int{"Plain": 3, "Gin": 2, "Mux": 2}
 	if cfg.Thorough() {
@@ -299,7 +337,10 @@ func main() {
 				inflight := inFlightAtCancel(sc)
 				pause := inflight > 0 && r.Chance(1, 12)
 				until := r.Chance(1, 10)
-				add(fl, false, r.Chance(1, 4), decorate(sc, pause, until), "exhaustive")
+				sn := add(fl, false, r.Chance(1, 4), decorate(sc, pause, until), "exhaustive")
+				if r.Chance(1, 8) {
+					withCfg(sn, timeoutCfgs[r.Intn(len(timeoutCfgs))])
+				}
 			}
 		}
 	}
@@ -315,7 +356,10 @@ func main() {
 		}
 		sc := randomScript(r, n)
 		inflight := inFlightAtCancel(sc)
-		add(flavors[r.Intn(3)], false, r.Chance(1, 3), decorate(sc, inflight > 0 && r.Chance(1, 6), r.Chance(1, 6)), "random")
+		sn := add(flavors[r.Intn(3)], false, r.Chance(1, 3), decorate(sc, inflight > 0 && r.Chance(1, 6), r.Chance(1, 6)), "random")
+		if r.Chance(1, 4) {
+			withCfg(sn, timeoutCfgs[r.Intn(len(timeoutCfgs))])
+		}
 	}
 	// ---- listener failures and early cancellations again (the select is a race) ----
 	reps := 6
@@ -358,7 +402,7 @@ func main() {
 
 	retries, stallRetries := 0, 0
 	for i, s := range scs {
-		canon := fmt.Sprintf("%s|%v|%v|%s", s.flavor, s.portHeld, s.keepalive, scriptString(s.script))
+		canon := fmt.Sprintf("%s|%v|%v|%s|%s", s.flavor, s.portHeld, s.keepalive, scriptString(s.script), s.cfgString())
 		inflight := inFlightAtCancel(s.script)
 		nontrivial := inflight > 0 || s.portHeld || s.script[0].op == "cancel"
 		res := results[i]
@@ -386,7 +430,7 @@ func main() {
 		}
 		js := map[string]interface{}{
 			"router": s.flavor, "port_held": s.portHeld, "keepalive": s.keepalive, "script": scriptString(s.script),
-			"bodies": strings.Join(bodies, " "), "in_flight_at_cancel": inflight,
+			"bodies": strings.Join(bodies, " "), "in_flight_at_cancel": inflight, "config": s.cfgString(),
 			"observed": map[string]interface{}{"trace": strings.Join(evjs, " "), "runner_error": res.errText, "notes": res.notes, "clients": res.clients},
 		}
 		w.Count("router:" + s.flavor)
@@ -398,6 +442,14 @@ func main() {
 		if s.keepalive {
 			w.Count("keepalive")
 		}
+		if s.ctxAware {
+			w.Count("handlers_follow_request_context")
+		}
+		for name, d := range map[string]time.Duration{"idle_timeout": s.idle, "read_timeout": s.read, "write_timeout": s.write, "read_header_timeout": s.readHeader} {
+			if d > 0 {
+				w.Count("cfg:" + name)
+			}
+		}
 		w.Count("runner_return:" + res.rv)
 		for _, k := range res.counts {
 			w.Count(k)
@@ -407,7 +459,7 @@ func main() {
 	w.Meta["port_retries_address_in_use"] = retries
 	w.Meta["scenarios_rerun_after_expired_wait"] = stallRetries
 	w.Meta["exhaustive_bound"] = exhaustiveBound
-	w.Close("real server.RunServer / gin Run / mux Run on 127.0.0.1; corpus (in flight at cancel with early-return window, refusal while handlers run, 32 in flight with large half-written bodies, cancel before start, port held) + "+exhaustiveBound+" + random scripts with up to 32 requests + repeated listener-failure/early-cancel races; compared: imposed order, trace inclusion in the model, graceful_b; nontrivial = a request in flight at the cancellation, port held or cancelled before start", true)
+	w.Close("real server.RunServer / gin Run (lura's engine and endpoint handler) / mux Run (lura's endpoint handler) on 127.0.0.1; two thirds of the handlers / stub proxies follow their request context as lura's pipes do; ServiceConfig idle/read/read_header timeouts of 30-80 ms alone and combined (write timeout large next to gated answers) with in-flight handlers held past them; corpus (in flight at cancel with early-return window, refusal while handlers run, 32 in flight with large half-written bodies, cancel before start, port held) + "+exhaustiveBound+" + random scripts with up to 32 requests + repeated listener-failure/early-cancel races; compared: imposed order, trace inclusion in the model, graceful_b; nontrivial = a request in flight at the cancellation, port held or cancelled before start", true)
 	if len(scs) == 0 {
 		os.Exit(1)
 	}
